@@ -42,6 +42,10 @@ impl MemSource {
 		self.parameters.bbox_pyramid = p;
 		self
 	}
+	pub fn with_fast_stream(mut self) -> MemSource {
+		self.fast_stream = true;
+		self
+	}
 	pub fn with_yields(mut self, n: u8) -> MemSource {
 		self.yields = n;
 		self
